@@ -395,7 +395,7 @@ package input
 //@ func ValidateServiceGetter pure
 //@   property C11 C13
 //@   ensures [accept_iff] (result == nil) <==> (s.Getter == nil ||
-//@        (!isMethodOf(*s.Getter, "github.com/gontainer/gontainer-helpers/v3/container.Container")
+//@        (!isMethodOf(*s.Getter, "github.com/gontainer/gontainer-helpers/v3/container.Container") && *s.Getter != "Container"
 //@         && !hasPrefix(*s.Getter, "Must") && !hasSuffix(*s.Getter, "InContext") && matches(*s.Getter, regexServiceGetter)))
 
 //@ func ValidateServiceType pure
@@ -474,13 +474,23 @@ package input
 //@   && ValidateServiceCalls(s) == nil && ValidateServiceFields(s) == nil && ValidateServiceTags(s) == nil
 //@ spec svcOK(n string, s Service) bool = ValidateServiceName(n) == nil && (isTodo(s) || attrsOK(s))
 
+// the service declared under the a-th key (in sorted key order), and whether it gets generated getter methods
+//@ spec svcAt(i Input, a int) Service = i.Services[maps.Keys(i.Services)[a]]
+//@ spec hasGetter(s Service) bool = !isTodo(s) && s.Getter != nil
+
+// acceptance also means: no two services that get getter methods share a getter (C13: generated methods never collide)
 //@ func ValidateServices pure
 //@   property C11 C15 C13
 //@   ensures [accept_sound @a] result == nil ==> (forall n string :: n in i.Services ==> svcOK(n, i.Services[n]))
-//@   ensures [accept_complete @b] (forall n string :: n in i.Services ==> svcOK(n, i.Services[n])) ==> result == nil
+//@   ensures [accept_sound_unique_getters @u] result == nil ==> (forall a int, b int :: 0 <= a && a < b && b < len(maps.Keys(i.Services)) && hasGetter(svcAt(i, a)) && hasGetter(svcAt(i, b)) ==> *svcAt(i, a).Getter != *svcAt(i, b).Getter)
+//@   ensures [accept_complete @b] (forall n string :: n in i.Services ==> svcOK(n, i.Services[n])) && (forall a int, b int :: 0 <= a && a < b && b < len(maps.Keys(i.Services)) && hasGetter(svcAt(i, a)) && hasGetter(svcAt(i, b)) ==> *svcAt(i, a).Getter != *svcAt(i, b).Getter) ==> result == nil
 //@   loop 1
+//@     invariant [getters_nonnil] getters != nil
 //@     invariant [a @a] allNil(errs, len(errs)) ==> (forall q int :: 0 <= q && q < $i ==> svcOK(maps.Keys(i.Services)[q], i.Services[maps.Keys(i.Services)[q]]))
-//@     invariant [b @b] (forall q int :: 0 <= q && q < $i ==> svcOK(maps.Keys(i.Services)[q], i.Services[maps.Keys(i.Services)[q]])) ==> allNil(errs, len(errs))
+//@     invariant [u @u] allNil(errs, len(errs)) ==> (forall a int, b int :: 0 <= a && a < b && b < $i && hasGetter(svcAt(i, a)) && hasGetter(svcAt(i, b)) ==> *svcAt(i, a).Getter != *svcAt(i, b).Getter)
+//@     invariant [seen_complete @u] forall a int :: 0 <= a && a < $i && hasGetter(svcAt(i, a)) ==> (*svcAt(i, a).Getter in getters)
+//@     invariant [seen_sound @b] forall g string :: g in getters ==> (exists a int :: 0 <= a && a < $i && hasGetter(svcAt(i, a)) && *svcAt(i, a).Getter == g)
+//@     invariant [b @b] (forall q int :: 0 <= q && q < $i ==> svcOK(maps.Keys(i.Services)[q], i.Services[maps.Keys(i.Services)[q]])) && (forall a int, b int :: 0 <= a && a < b && b < $i && hasGetter(svcAt(i, a)) && hasGetter(svcAt(i, b)) ==> *svcAt(i, a).Getter != *svcAt(i, b).Getter) ==> allNil(errs, len(errs))
 //@   loop 2
 //@     invariant [len] len(sErrs) == 1 + $i
 //@     invariant [name] sErrs[0] == ValidateServiceName(n)
@@ -543,10 +553,12 @@ package input
 
 // ---- C13 / C11: generated method names G, GInContext, MustG, MustGInContext of accepted, non-todo services with
 // getters never collide with each other, with the API of the embedded *container.Container, or with its field name.
-// (ValidateServices accepts only if ValidateServiceGetter accepts every non-todo service: contract accept_sound above.)
+// (ValidateServices accepts only if ValidateServiceGetter accepts every non-todo service and no two of them share a
+// getter: contract clauses accept_sound and accept_sound_unique_getters above.)
 //@ lemma no_getter_collisions(s1 Service, s2 Service)
 //@   property C13 C11
 //@   requires ValidateServiceGetter(s1) == nil && ValidateServiceGetter(s2) == nil && s1.Getter != nil && s2.Getter != nil
+//@   requires *s1.Getter != *s2.Getter
 //@   ensures [runtime_api] let g = *s1.Getter ::
 //@        !isMethodOf(g, "github.com/gontainer/gontainer-helpers/v3/container.Container")
 //@     && !isMethodOf(g + "InContext", "github.com/gontainer/gontainer-helpers/v3/container.Container")
@@ -555,5 +567,4 @@ package input
 //@   ensures [cross_terms] let g = *s1.Getter :: let h = *s2.Getter ::
 //@        g != h + "InContext" && g != "Must" + h && g != "Must" + h + "InContext"
 //@     && g + "InContext" != "Must" + h && g + "InContext" != "Must" + h + "InContext" && "Must" + g != h + "InContext"
-//@   ensures [distinct_getters] *s1.Getter != *s2.Getter
-//@   ensures [embedded_field] *s1.Getter != "Container"
+//@   ensures [embedded_field] *s1.Getter != "Container" && *s1.Getter + "InContext" != "Container" && "Must" + *s1.Getter != "Container"
